@@ -4,6 +4,7 @@ go 1.26.8
 
 require (
 	github.com/containerd/containerd/v2 v2.2.3
+	github.com/containerd/errdefs v1.0.0
 	github.com/containerd/stargz-snapshotter v0.18.2
 	github.com/containerd/stargz-snapshotter/cmd v0.0.0
 	github.com/containerd/stargz-snapshotter/estargz v0.18.2
@@ -21,7 +22,6 @@ require (
 	github.com/cespare/xxhash/v2 v2.3.0 // indirect
 	github.com/containerd/containerd/api v1.10.0 // indirect
 	github.com/containerd/continuity v0.4.5 // indirect
-	github.com/containerd/errdefs v1.0.0 // indirect
 	github.com/containerd/log v0.1.0 // indirect
 	github.com/containerd/platforms v1.0.0-rc.4 // indirect
 	github.com/containerd/typeurl/v2 v2.2.3 // indirect
